@@ -10,7 +10,7 @@ import z3
 
 from pyvc import specz3
 from pyvc.sym import (I, B, A, A2, iv, add, sub, lit, fresh, fresh_seq, Seq, Tup, Mat, Row, Obj, FloatV, NONE, NoneV, const_str,
-                      const_list, seq_eq, const_mat, MaskV, ZipSeq, MaybeFloat, PairSeq, LazySeq, MatLazy, DictV, NpInt)
+                      const_list, seq_eq, const_mat, MaskV, ZipSeq, MaybeFloat, PairSeq, LazySeq, MatLazy, DictV, NpInt, CList)
 
 Z3_TIMEOUT_MS = int(os.environ.get("PYVC_Z3_TIMEOUT_MS", "20000"))
 CVC5_TIMEOUT_S = int(os.environ.get("PYVC_CVC5_TIMEOUT_S", "40"))
@@ -708,6 +708,12 @@ class Exec:
     def subscript(self, base, sl, st, line, base_expr=None):
         if is_opaque(base):
             return ("opaque", base[1] + "[]")          # an element of an opaque collection (exceptions of the subscript itself are not covered)
+        if isinstance(base, CList):
+            if isinstance(sl, ast.Slice):
+                raise Unsupported("slice of a length-only list")
+            kv = toint(self.ev(sl, st))
+            self.may_raise(st, "IndexError", z3.Or(kv < -base.n, kv >= base.n), f"index:{self.ordinal('idx')}", line)
+            return ("opaque", "list-element")
         if isinstance(base, Tup):
             kv = toint(self.ev(sl, st))
             k = lit(kv)
@@ -1068,6 +1074,8 @@ class Exec:
                 v = Seq("list", "char", v.arr, v.n, v.start, v.delta)      # an empty list that will hold single characters
             if hint == "list_obj" and isinstance(v, Seq) and v.kind == "list" and lit(v.n) == 0:
                 v = Tup([])                                                  # an empty list that will hold strings / arrays
+            if hint == "list_counted" and isinstance(v, (Tup, Seq)):
+                v = CList(iv(len(v.items)) if isinstance(v, Tup) else v.n)    # a list of strings / arrays: only its length is tracked
             if hint == "list_pair" and isinstance(v, Seq) and v.kind == "list" and lit(v.n) == 0:
                 v = PairSeq(const_list([]), const_list([]))                  # an empty list that will hold 2-tuples of ints
             st.env[tgt.id] = v
@@ -1102,6 +1110,11 @@ class Exec:
                 new_order = Seq(base.order.kind, base.order.elem, z3.If(base.has[k_], base.order.arr, seq_append(base.order, k_).arr),
                                 z3.If(base.has[k_], base.order.n, base.order.n + 1), base.order.start, base.order.delta)
                 st.env[name] = DictV(z3.Store(base.has, k_, z3.BoolVal(True)), z3.Store(base.varr, k_, v.arr), z3.Store(base.vlen, k_, v.n), new_order)
+                return
+            if isinstance(base, CList):                     # a length-only list: the position must exist, the length does not change
+                kv = toint(self.ev(tgt.slice, st))
+                self.may_raise(st, "IndexError", z3.Or(kv < -base.n, kv >= base.n), f"index:{self.ordinal('idx')}", line)
+                self.frame_store(st, name, line)
                 return
             if isinstance(base, Tup):                       # a Python list of objects (strings, arrays): element replaced at a literal position
                 k_ = lit(toint(self.ev(tgt.slice, st)))
@@ -1295,6 +1308,8 @@ class Exec:
         return names
 
     def havoc_value(self, name, old):
+        if isinstance(old, CList):
+            return CList(fresh(name + "_n"))
         if isinstance(old, DictV):
             return DictV(fresh(name + "_has", z3.ArraySort(I, B)), fresh(name + "_varr", A2), fresh(name + "_vlen", A),
                          Seq("list", "int", fresh(name + "_order", A), fresh(name + "_order_n")))
